@@ -452,3 +452,26 @@ func pathwise(c *core.Ctx, in ssa.Instruction, depth int, pred func([]core.Fact)
 	}
 	return true, n, ""
 }
+
+// pathwiseP is pathwise with the path handed to the predicate (for phi resolution along it).
+func pathwiseP(c *core.Ctx, in ssa.Instruction, depth int, pred func(core.CFGPath, []core.Fact) bool) (bool, int, string) {
+	paths, ok := core.PathsTo(in, 6000)
+	if !ok {
+		return false, 0, "too many paths"
+	}
+	n := 0
+	for _, p := range paths {
+		var facts []core.Fact
+		for _, e := range p.Edges {
+			facts = append(facts, c.EdgeFacts(e, depth)...)
+		}
+		if infeasible(facts) {
+			continue
+		}
+		n++
+		if !pred(p, facts) {
+			return false, n, describePath(c, p.Edges)
+		}
+	}
+	return true, n, ""
+}
